@@ -515,6 +515,10 @@ impl VersionSet {
                         ));
                     }
                 }
+
+                // The new version was not installed. Callers must learn about that: they keep the
+                // immutable memtable, do not delete files and record the background error.
+                return Err(error);
             }
         }
 
